@@ -152,9 +152,14 @@ func main() {
 		out["retryVars"] = retryVars(rt)
 		out["structs"] = structs(llrp)
 		out["marshalMethods"] = marshalMethods(llrp)
-		acc := accesses(llrp, []string{"Client"})
-		acc = append(acc, accesses(drv, []string{"LLRPDevice", "Driver"})...)
+		acc, aux := accessesAux(llrp, []string{"Client"})
+		acc2, aux2 := accessesAux(drv, []string{"LLRPDevice", "Driver"})
+		acc = append(acc, acc2...)
 		out["accesses"] = acc
+		aux.Calls = append(aux.Calls, aux2.Calls...)
+		aux.ChanCloses = append(aux.ChanCloses, aux2.ChanCloses...)
+		aux.PostFork = append(aux.PostFork, aux2.PostFork...)
+		out["raceAux"] = aux
 		out["readCmd"] = cmdSwitches(drv)
 		out["keepAlive"] = keepAliveFacts(drv)
 		out["supervisor"] = supervisorFacts(drv)
